@@ -15,7 +15,7 @@ def iv_mc(tier):
 def iv_chain(tier, required):
     n = 5 if tier == "quick" else 7
     return Stage("chain", ("Gen_Interval", "Gen_Interval.cfg"), ("Trace_Interval", "Trace_Interval.cfg"),
-                 mc=[iv_mc(tier)], env={"FAMILY": "chain", "IV_N": n}, required=required)
+                 mc=[iv_mc(tier), ("StatsCI", "StatsCI.cfg", {}, 1)], env={"FAMILY": "chain", "IV_N": n}, required=required)
 
 
 def C07(tier, seed):
@@ -280,10 +280,13 @@ NUM_TRUST = TLC_TRUST + ["the mpmath-generated quantile tables (spec/tables; axi
 def C02(tier, seed):
     st = prop_stage("row", 40 if tier == "quick" else 130, C02_REQ, levels="sel" if tier == "quick" else "all")
     st.mc = list(TABLES_MC)
+    own = own_stage("W", "Trace_Proportion", ["C02.root_lo", "C02.root_hi", "C02.domain"])
     return {
-        "stages": [st],
+        "stages": [st, own],
         "exhaustive": True,
-        "rule": "every (n, k) with 0 <= k <= n+1 for n <= 40 (130 thorough) x 9 (17) levels x 3 kinds x {Wilson, Wald}, plus 6 large "
+        "rule": "every ci_wilson / ci_z_normal call made by the repository's OWN test-suite (about 18 000 calls of the Monte-Carlo accuracy test, "
+                "recorded by the guarded hook) through the same root-enclosure judge; "
+                "every (n, k) with 0 <= k <= n+1 for n <= 40 (130 thorough) x 9 (17) levels x 3 kinds x {Wilson, Wald}, plus 6 large "
                 "populations up to 10^7 with boundary and TLC-drawn k; at two-sided/one-sided 0.95 every (n, k) additionally through 8 front-ends. "
                 "Each returned bound is accepted only if the score (Wald) polynomial changes sign within 2^-46 of it for every z^2 of the "
                 "reference enclosure (exact dyadic arithmetic); outcome class must be exactly the documented domain.",
@@ -325,8 +328,10 @@ def C03(tier, seed):
     perm = st("perm", ["C03.data_outcome", "C03.data_elements"] + ["C03.entry." + x for x in ("ci", "sorted", "max_n", "max_1024")]
               + ["C03.type." + x for x in ("i32", "f64", "char", "str")], {"P_N": 6 if q else 7})
     shuf = st("shuffle", ["C03.data_outcome", "C03.data_elements", "C03.distinct_values_shuffled"], {"Q_SHUFFLES": 60 if q else 600}, shards=4)
+    own = own_stage("Q", "Trace_Quantile", ["C03.ranks", "C03.domain"])
+    own.shards = 1
     return {
-        "stages": [ranks, perm, shuf],
+        "stages": [ranks, perm, shuf, own],
         "exhaustive": True,
         "rule": "ranks: every n in 0..70 (400) x 35 dyadic quantiles (incl. 0, 1, outside [0,1]) + products at half-integers and their float "
                 "neighbours + NaN x 5 levels x 3 kinds through ci_indices, Stats::ci, Stats::index; data: EVERY permutation of 4 multiset shapes "
@@ -366,14 +371,51 @@ def arith_req(P):
                                   "negative_critical_value", "t_branch", "switch_zone", "normal_branch", "small_n")]
 
 
+OWN_TARGET = os.path.join(driver.WORK, "own-tests-target")
+
+
+def own_tests_executor(want):
+    """run the repository's own test-suite with the guarded hooks on and convert the records of kind `want`"""
+    def run(cases_path, trace_path):
+        import hooktrace
+        raw = os.path.join(driver.WORK, f"own.{os.getpid()}.raw")
+        if os.path.exists(raw):
+            os.remove(raw)
+        env = dict(os.environ, CARGO_NET_OFFLINE="true", CARGO_TARGET_DIR=OWN_TARGET,
+                   RUSTFLAGS="--cfg stats_ci_verif", STATS_CI_TRACE=raw)
+        t0 = time.time()
+        p = subprocess.run(["cargo", "test", "--workspace", "--no-fail-fast", "--offline", "--lib", "--tests"],
+                           cwd=driver.REPO, env=env, stdout=subprocess.PIPE, stderr=subprocess.STDOUT, text=True)
+        driver.log(f"[own-tests] cargo test with hooks rc={p.returncode} ({time.time()-t0:.1f}s)")
+        if not os.path.exists(raw):
+            raise driver.ToolError("the hooked test run recorded nothing:\n" + p.stdout[-2000:])
+        evs, stats = hooktrace.convert(raw, os.path.join(driver.SPEC, "tables"), want)
+        os.remove(raw)
+        driver.log(f"[own-tests] {want}: {stats}")
+        if not evs:
+            raise driver.ToolError(f"no {want} records in the hooked test run")
+        with open(trace_path, "w") as f:
+            for e in evs:
+                f.write(json.dumps(e, separators=(",", ":")) + "\n")
+    return run
+
+
+def own_stage(want, trace, req):
+    return Stage("own_tests", None, (trace, trace + ".cfg"), env={"FAMILY": "chain"}, executor=own_tests_executor(want),
+                 required=req, shards=8)
+
+
 def C01(tier, seed):
     st = mean_stage("c01", "C01", arith_req("C01") + ["C01.call_styles_agree", "C01.constant_sample", "C01.style.ci", "C01.style.extend",
                                                     "C01.style.append", "C01.style.meanci"], 40 if tier == "quick" else 400)
     st.mc = list(TABLES_MC)
+    own = own_stage("M", "Trace_Hook", ["C01.own_tests_kind", "C01.own_tests_bound"])
     return {
-        "stages": [st],
+        "stages": [st, own],
         "exhaustive": False,
-        "rule": "40 (400) seeded random run-length samples (n in 2..301, offsets, dyadic scalings 2^-20..2^20, duplicates, mixed signs) + 6 special "
+        "rule": "every Arithmetic::ci_mean call made by the repository's OWN test-suite (about 30 000, recorded by the guarded hook) judged against "
+                "the interval formula on the statistics it was computed from; "
+                "40 (400) seeded random run-length samples (n in 2..301, offsets, dyadic scalings 2^-20..2^20, duplicates, mixed signs) + 6 special "
                 "shapes + large n as blocks on both sides of the t->z switch (up to 10^6) x 6 (17) levels x 3 kinds x f32/f64 x 4 (6) call styles. "
                 "TLC computes the exact mean / variance of every sample and accepts a bound b only if (n b - S1)^2 (n-1) = c^2 V within the "
                 "tolerance model, c^2 over the reference enclosure of the t / normal quantile, with the sign of c. Distinct = (sample, confidence, type, style).",
